@@ -39,7 +39,7 @@ PROPERTY_RULES: Dict[str, List[str]] = {
     "C05": ["R3/INIT", "R4/outtime", "R14/shared", "R8", "R1/O4", "R1/O5", "R2", "R4/wake", "R4/settle", "R4/wait", "R5", "R6", "R7/site", "R19/anc-closure", "R19/zero", "R19/closure", "R19/gate", "R19/seed"],
     "C06": ["R5", "R20/connect", "R6", "R7/site", "R7/R9", "R19", "R20/delay"],
     "C07": ["R2/INFLIGHT", "R2/sink", "R2/anc", "R2/own", "R2/until", "R2/extra", "R3/P3", "R5/store", "R5/update_min", "R19/anc-closure", "R4/notify", "R20/delay"],
-    "C08": ["R6", "R20/table/input_delays", "R5/store", "R19/zero", "R19/anc-closure", "R19/closure", "R7/key", "R7/R9", "R5/update_min"],
+    "C08": ["R6", "R20/table/input_delays", "R5/store", "R19/zero", "R19/anc-closure", "R19/closure", "R7/key", "R7/R9", "R5/update_min", "R1/O5b"],
     "C09": ["R20/ports", "R7/R9", "R2/INFLIGHT", "R2/anc", "R4/notify", "R4/wake", "R8/lift", "R3/R12", "R4/outtime", "R19/interval", "R20/delay", "R20/table/triggers", "R1/O3", "R1/O1", "R5/store", "R14/waiter", "R14/groups"],
     "C10": ["R1/O3", "R3/P1", "R1/O4", "R2/INFLIGHT", "R2/sink", "R2/own", "R20/table/successors", "R20/delay", "R20/async", "R20/writers", "R10/R18"],
     "C11": ["R7/R9", "R20", "R19/interval", "R19/group_path", "R19/group-scope", "R22/readers", "R22/tuple", "R22/defaults", "R22/forbidden", "R22/triple", "R22/wrap", "R22/op"],
@@ -47,7 +47,7 @@ PROPERTY_RULES: Dict[str, List[str]] = {
     "C13": ["R11", "R22/type-readers", "R3/P2", "R3/P6", "R14/waiter", "R14/groups"],
     "C14": ["R14", "R23/feature", "R11/conn", "R11/raw", "R11/local"],
     "C15": ["R23", "R3/P3b"],
-    "C16": ["R1/O2", "R2/INFLIGHT", "R2/anc", "R2/own", "R1/O4", "R20/async", "R20/connect", "R20/writers", "R10/gate", "R10/set_data", "R10/get_data", "R17/take", "R17/memory", "R17/writeback"],
+    "C16": ["R1/O2", "R2/INFLIGHT", "R2/anc", "R2/own", "R1/O4", "R20/async", "R20/connect", "R20/writers", "R10/gate", "R10/set_data", "R10/get_data", "R17/take", "R17/memory", "R17/writeback", "R3/P1"],
     "C17": ["R3/INIT", "R11/schedule", "R11/sched-value", "R8", "R2/rt", "R4/wait", "R10/set_event", "R10/run", "R10/rt_check", "R10/R18", "R1/O5c", "R1/O5d", "R1/O5e", "R4/dedup", "R4/wake"],
     "C18": ["R24"],
 }
@@ -70,7 +70,7 @@ CLAIMS: Dict[str, Tuple[str, str]] = {
             "exactness of the closure over all multigraphs"),
     "C07": ("term completeness of max_advance incl. in-flight ancestors, <= until, = until without trigger ancestors, the value reaches the simulator unchanged",
             "traceability of later steps over a whole run"),
-    "C08": ("TieredInterval.__lt__ as the product of its scan loop with the order specification derived from the arrival-time semantics (all letter sequences, both cutoff directions, history: trichotomy and 'a smaller delay never arrives later'), TieredTime.__lt__ a tuple comparison, derived operators and a hand-written == consistent with the fields, structural clauses of the additions (dependence on the cutoff, result pre_length, smaller cutoff), no delay identified by its tiers alone; and the uses of the arithmetic that the statement names: min-combination of parallel connections in connect_one, the two closures (every path relaxed until nothing changes), the zero test on the tiers only",
+    "C08": ("TieredInterval.__lt__ as the product of its scan loop with the order specification derived from the arrival-time semantics (all letter sequences, both cutoff directions, history: trichotomy and 'a smaller delay never arrives later'), TieredTime.__lt__ a tuple comparison, derived operators and a hand-written == consistent with the fields, structural clauses of the additions (dependence on the cutoff, result pre_length, smaller cutoff), no delay identified by its tiers alone; and the uses of the arithmetic that the statement names: min-combination of parallel connections in connect_one, the two closures (every path relaxed until nothing changes), the zero test on the tiers only, the wake-up test of a wait (the target is compared with progress + delay: the action of the delay on the time is applied on every path, no shortcut bypasses the addition); the generated == / hash of the two classes see every field (no field(compare=False), no eq=False)",
             "the tier arithmetic of the additions: associativity, action law, 'adding a delay never moves time backwards' (value arithmetic)"),
     "C09": ("guard placement before the step, all sub-tiers, >= against the configured bound, SimulationError naming the simulator, sub-tier accounting of the output time, and what makes a sub-step count: every trigger entry carries its own connection's delay (a time-shifted trigger next to a weak one must leave the loop), and a simulator does not run sub-steps ahead of its consumers (the lazy wait includes the sub-tiers); the step in flight bounds the loop partners until its outputs are fetched, every triggered (simulator, delay) pair is scheduled",
             "'time then advances normally' (behaviour)"),
@@ -86,7 +86,7 @@ CLAIMS: Dict[str, Tuple[str, str]] = {
             "promptness (timing), behaviour for each crash point, child-process reaping, faults inside mosaik_api_v3"),
     "C15": ("request shapes of every Proxy.send site (step: exactly 3 positional arguments, no keyword arguments), the feature/adapter table (max_advance, setup_done, missing type), thresholds and nesting order of the adapters for representative versions, the two rejections dominate the wrapping, configured and reported versions are parsed alike, in-process time_resolution handling, adapters are transparent for errors (no forward inside a swallowing try) and the meta they adapt is one stable object",
             "'sees the same scheduling and data as a current-version simulator' (behaviour)"),
-    "C16": ("the producer waits unconditionally for its async consumers, set_data/get_data are gated by _assert_async_requests (ScenarioError for both missing-connection cases) before any access, set_data inputs are consumed exactly once (take and clear), connect_async_requests fills successors, successors_to_wait_for and input_delays; the producer's bound sees the step in flight until its outputs are fetched",
+    "C16": ("the producer waits unconditionally for its async consumers, set_data/get_data are gated by _assert_async_requests (ScenarioError for both missing-connection cases) before any access, set_data inputs are consumed exactly once (take and clear), connect_async_requests fills successors, successors_to_wait_for and input_delays; the producer's bound sees the step in flight until its outputs are fetched; wait_for_dependencies dominates the pop of every step (no fast path around the wait for the async-request partners)",
             "the ordering clause over executions"),
     "C17": ("set_event decision table (error outside real-time mode before any effect, schedule iff < until else warn, lifted to the simulator's tiers), rt_factor validated and scaled by time_resolution before it is stored, real-time progress term, polling wait with timeout=rt_factor, rt_check table (RuntimeError iff rt_strict), rt_strict confined, rt_start exists before any process runs and is read off the clock when the processes are created; a self-step is pushed onto the heap of pending steps (pending external events survive), the world's until / rt_factor exist before run() first suspends; the real-time term is ceil((perf_counter() - rt_start) / rt_factor): rounded up, not down; set_event reaches the simulator through schedule_step, which creates the step unless that very time is already pending (a step in flight at the same time does not count) and wakes a waiting simulator iff the new step is earlier",
             "every wall-clock clause (timing is a runtime quantity)"),
